@@ -71,6 +71,15 @@ def gen_case(seed, tier, index=0):
         if rng.chance(0.06):
             p["license"] = p["license"] + "\n The full licence text\n .\n second paragraph"
         paras.append(p)
+    if rng.chance(0.2) and names:
+        # Debian style: the paragraph's copyright line is literally the notice one of its files carries itself
+        plain = [n for n in names if not set(n) & set("\\*?")]  # a file name with these characters is not its own pattern
+        tgt = rng.sample(plain, min(len(plain), 3)) or ["README.md"]
+        line = "Copyright (C) 2021 Alice Example"
+        for f in files:
+            if f["path"] == tgt[0]:
+                f["content"] = f"# {line}\nx\n"
+        paras.append({"files": tgt if len(tgt) > 1 else tgt[0], "copyright": line, "license": "MIT"})
     if rng.chance(0.5) and not any(p["files"] == "*" for p in paras):
         paras.insert(0, {"files": "*", "copyright": "2001 Everyone", "license": "CC0-1.0"})
     files.append({"path": ".reuse/dep5", "content": G.dep5(paras, header=rng.chance(0.97))})
@@ -284,6 +293,10 @@ def oracle(case, results):
                        "detail": f"{kind} at event {var.get('event')}: {state}; fired={rec.get('fired')}"})
         if kind.startswith("error-") and rec.get("fired") and not rec.get("crashed"):
             failed = bool(rec.get("exc")) or rec.get("exit") not in (0, None)
+            if not failed and fin[".reuse/dep5"] is not None:
+                # success was reported although dep5 is still there: the project now holds both files and every
+                # later command refuses it
+                vs.append({"sig": "C17/error/success-reported-with-dep5-still-present", "detail": f"{kind}: exit 0, .reuse/dep5 present, REUSE.toml {'complete' if toml_ok else 'incomplete'}"})
             if not failed and not toml_ok:
                 vs.append({"sig": "C17/error/reported-success", "detail": f"{kind}: exit 0 although REUSE.toml is not complete"})
             if failed and not dep5_ok and not toml_ok:
